@@ -1400,6 +1400,207 @@ Proof.
 Qed.
 
 (* ================================================================================================================== *)
+(* Part 3b: the iteration order of struct_names.  In general the marks depend on it (order_matters_example below); they do not when
+   no struct that records a factory type is itself recorded as a factory type (no abstract struct inlines an abstract struct). *)
+
+Definition flat (ds : list decl) : Prop := forall x f g, descendant_of ds x f -> ~ descendant_of ds f g.
+Definition same_set (l l' : list string) : Prop := forall x, In x l <-> In x l'.
+
+Lemma same_set_refl l : same_set l l.
+Proof. intro x. tauto. Qed.
+
+Lemma same_set_length l l' : NoDup l -> NoDup l' -> same_set l l' -> length l = length l'.
+Proof. intros H1 H2 H. apply Permutation_length. apply NoDup_Permutation; assumption. Qed.
+
+Lemma is_marked_desc_same ds M M' n : same_set M M' -> is_marked_desc ds M n = is_marked_desc ds M' n.
+Proof.
+  intro H. destruct (is_marked_desc ds M n) eqn:E1, (is_marked_desc ds M' n) eqn:E2; try reflexivity.
+  - apply is_marked_desc_spec in E1. destruct E1 as [f [H1 H2]].
+    assert (E : is_marked_desc ds M' n = true) by (apply is_marked_desc_spec; exists f; split; [exact H1 | apply H; exact H2]). congruence.
+  - apply is_marked_desc_spec in E2. destruct E2 as [f [H1 H2]].
+    assert (E : is_marked_desc ds M n = true) by (apply is_marked_desc_spec; exists f; split; [exact H1 | apply H; exact H2]). congruence.
+Qed.
+
+(* marking a descendant does not change who is a descendant of a marked factory *)
+Lemma is_marked_desc_flat ds M n y : flat ds -> is_marked_desc ds M n = true -> is_marked_desc ds (set_add n M) y = is_marked_desc ds M y.
+Proof.
+  intros Hflat Hn. apply is_marked_desc_spec in Hn. destruct Hn as [f [Hd _]].
+  destruct (is_marked_desc ds (set_add n M) y) eqn:E1, (is_marked_desc ds M y) eqn:E2; try reflexivity.
+  - apply is_marked_desc_spec in E1. destruct E1 as [f' [H1 H2]]. apply set_add_In in H2. destruct H2 as [->|H2].
+    + exfalso. exact (Hflat _ _ _ H1 Hd).
+    + assert (E : is_marked_desc ds M y = true) by (apply is_marked_desc_spec; exists f'; auto). congruence.
+  - assert (E : is_marked_desc ds (set_add n M) y = true) by (eapply is_marked_desc_mono; [apply set_add_incl | exact E2]). congruence.
+Qed.
+
+Lemma p1_flat ds A order : flat ds -> forall M t y,
+  (In y (fst (p1 ds A order (M, t))) <-> In y M \/ (In y order /\ is_marked_desc ds M y = true))
+  /\ (In y (snd (p1 ds A order (M, t))) <-> In y t \/ (In y order /\ is_marked_desc ds M y = true /\ ~ In y A)).
+Proof.
+  intro Hflat. induction order as [|n r IH]; intros M t y.
+  - simpl. split; split; try tauto; intros [H|[[] _]]; exact H.
+  - unfold p1. simpl fold_left. fold (p1 ds A r (p1_step ds A (M, t) n)). unfold p1_step. cbn [fst snd].
+    destruct (is_marked_desc ds M n) eqn:EM.
+    + destruct (IH (set_add n M) (if mem n A then t else set_add n t) y) as [I1 I2].
+      rewrite (is_marked_desc_flat ds M n y Hflat EM) in I1, I2. split.
+      * rewrite I1, set_add_In. split.
+        -- intros [[->|H]|[H1 H2]]; [right; split; [left; reflexivity | exact EM] | left; exact H | right; split; [right; exact H1 | exact H2]].
+        -- intros [H|[[->|H1] H2]]; [left; right; exact H | left; left; reflexivity | right; split; assumption].
+      * rewrite I2. destruct (mem n A) eqn:EA.
+        -- apply mem_In in EA. split.
+           ++ intros [H|[H1 [H2 H3]]]; [left; exact H | right; split; [right; exact H1 | split; assumption]].
+           ++ intros [H|[[->|H1] [H2 H3]]]; [left; exact H | contradiction | right; split; [exact H1 | split; assumption]].
+        -- apply mem_false in EA. rewrite set_add_In. split.
+           ++ intros [[->|H]|[H1 [H2 H3]]]; [right; split; [left; reflexivity | split; assumption] | left; exact H | right; split; [right; exact H1 | split; assumption]].
+           ++ intros [H|[[->|H1] [H2 H3]]]; [left; right; exact H | left; left; reflexivity | right; split; [exact H1 | split; assumption]].
+    + destruct (IH M t y) as [I1 I2]. split.
+      * rewrite I1. split.
+        -- intros [H|[H1 H2]]; [left; exact H | right; split; [right; exact H1 | exact H2]].
+        -- intros [H|[[->|H1] H2]]; [left; exact H | congruence | right; split; assumption].
+      * rewrite I2. split.
+        -- intros [H|[H1 [H2 H3]]]; [left; exact H | right; split; [right; exact H1 | split; assumption]].
+        -- intros [H|[[->|H1] [H2 H3]]]; [left; exact H | congruence | right; split; [exact H1 | split; assumption]].
+Qed.
+
+Lemma same_set_add_all l l' M M' : same_set l l' -> same_set M M' -> same_set (add_all l M) (add_all l' M').
+Proof. intros H1 H2 x. rewrite !add_all_In, (H1 x), (H2 x). tauto. Qed.
+
+Lemma same_set_flat_map (g : string -> list string) l l' : same_set l l' -> same_set (flat_map g l) (flat_map g l').
+Proof.
+  intros H x. rewrite !in_flat_map. split; intros [y [H1 H2]]; exists y; (split; [apply H; exact H1 | exact H2]).
+Qed.
+
+Lemma pass_same ds order order' M M' A A' : flat ds -> same_set order order' -> same_set M M' -> same_set A A' ->
+  same_set (snd (p1 ds A order (M, []))) (snd (p1 ds A' order' (M', [])))
+  /\ same_set (fst (pass ds order M A)) (fst (pass ds order' M' A')) /\ same_set (snd (pass ds order M A)) (snd (pass ds order' M' A')).
+Proof.
+  intros Hflat Ho HM HA.
+  assert (T : same_set (snd (p1 ds A order (M, []))) (snd (p1 ds A' order' (M', [])))).
+  { intro y. rewrite (proj2 (p1_flat ds A order Hflat M [] y)), (proj2 (p1_flat ds A' order' Hflat M' [] y)).
+    rewrite (is_marked_desc_same ds M M' y HM), (Ho y), (HA y). tauto. }
+  assert (F : same_set (fst (p1 ds A order (M, []))) (fst (p1 ds A' order' (M', [])))).
+  { intro y. rewrite (proj1 (p1_flat ds A order Hflat M [] y)), (proj1 (p1_flat ds A' order' Hflat M' [] y)).
+    rewrite (is_marked_desc_same ds M M' y HM), (Ho y), (HM y). tauto. }
+  split; [exact T|]. unfold pass. cbn [fst snd]. split.
+  - apply same_set_add_all; [apply same_set_flat_map; exact T | exact F].
+  - apply same_set_add_all; [apply same_set_flat_map; exact T | apply same_set_add_all; assumption].
+Qed.
+
+(* phase 2 refuses exactly when a newly marked struct has an array member *)
+Definition has_array_member (ds : list decl) (n : string) : Prop :=
+  exists s m a v d ats c, lookup ds n = Some (DStruct s) /\ In (Field m (FArray a) v d ats c) (s_fields s).
+
+Lemma phase2_fields_reject ds fs : (forall t c, ~ In (InlinePlaceholder t c) fs) -> forall M st,
+  phase2_fields ds fs M st = Reject <-> exists m a v d ats c, In (Field m (FArray a) v d ats c) fs.
+Proof.
+  induction fs as [|f fs IH]; intros Hx M st.
+  - simpl. split; [discriminate | intros [m [a [v [d [ats [c []]]]]]]].
+  - destruct f as [n t v d a c|tn c]; [|exfalso; eapply Hx; left; reflexivity].
+    assert (IH' := IH (fun t0 c0 H => Hx t0 c0 (or_intror H))).
+    simpl. rewrite is_array_dt_test. destruct t as [i|tn|ar].
+    + rewrite IH'. split; intros [m [a0 [v0 [d0 [ats [c0 H]]]]]]; exists m, a0, v0, d0, ats, c0; [right; exact H | destruct H as [H|H]; [discriminate | exact H]].
+    + assert (G : forall M0 st0, phase2_fields ds fs M0 st0 = Reject <-> exists m a0 v0 d0 ats c0, In (Field m (FArray a0) v0 d0 ats c0) (Field n (FName tn) v d a c :: fs)).
+      { intros M0 st0. rewrite IH'. split; intros [m [a0 [v0 [d0 [ats [c0 H]]]]]]; exists m, a0, v0, d0, ats, c0; [right; exact H | destruct H as [H|H]; [discriminate | exact H]]. }
+      destruct (lookup ds tn) as [d0|]; [|apply G].
+      match goal with |- context [if ?b then _ else _] => destruct b end; apply G.
+    + split; [intros _; exists n, ar, v, d, a, c; left; reflexivity | reflexivity].
+Qed.
+
+Lemma phase2_reject ds newly : resolves ds -> incl newly (struct_names ds) -> forall M st,
+  phase2 ds newly M st = Reject <-> exists n, In n newly /\ has_array_member ds n.
+Proof.
+  intros [Hn [Hr Hf]]. induction newly as [|n r IH]; intros Hin M st.
+  - simpl. split; [discriminate | intros [n [[] _]]].
+  - assert (Hin' : incl r (struct_names ds)) by (intros y Hy; apply Hin; right; exact Hy).
+    simpl. destruct (lookup_struct_name ds n Hn (Hin n (or_introl eq_refl))) as [s [EL Hs]]. rewrite EL.
+    pose proof (phase2_fields_reject ds (s_fields s) (proj1 (Hr s Hs)) M st) as PR.
+    destruct (phase2_fields_total ds (s_fields s) (proj1 (Hr s Hs)) M st) as [E|[[M1 st1] E]]; rewrite E; cbn [bind fst snd].
+    + split; [intros _|reflexivity]. apply PR in E. destruct E as [m [a [v [d [ats [c H]]]]]].
+      exists n. split; [left; reflexivity|]. exists s, m, a, v, d, ats, c. auto.
+    + rewrite (IH Hin' M1 st1). split.
+      * intros [n' [H1 H2]]. exists n'. split; [right; exact H1 | exact H2].
+      * intros [n' [[->|H1] H2]]; [|exists n'; auto].
+        exfalso. destruct H2 as [s' [m [a [v [d [ats [c [EL' H]]]]]]]]. rewrite EL in EL'. inversion EL'; subst s'.
+        assert (R : phase2_fields ds (s_fields s) M st = Reject) by (apply PR; exists m, a, v, d, ats, c; exact H). congruence.
+Qed.
+
+Definition outcome_equiv (r r' : result (list string)) : Prop :=
+  match r, r' with
+  | Ok M, Ok M' => same_set M M'
+  | Reject, Reject => True
+  | Crash c, Crash c' => c = c'
+  | _, _ => False
+  end.
+
+Lemma pu_loop_order ds order order' : flat ds -> resolves ds -> same_set order order' ->
+  incl order (struct_names ds) -> incl order' (struct_names ds) ->
+  forall k M M' A A', same_set M M' -> same_set A A' -> NoDup A -> NoDup A' -> incl A (struct_names ds) -> incl A' (struct_names ds) ->
+  outcome_equiv (pu_loop k ds order M {| already := A; tracked := None |}) (pu_loop k ds order' M' {| already := A'; tracked := None |}).
+Proof.
+  intros Hflat Hres Ho Hord Hord'. induction k as [|k IH]; intros M M' A A' HM HA Hn Hn' Hi Hi'; [reflexivity|].
+  cbn [pu_loop]. unfold ms_start. cbn [already tracked].
+  destruct (phase1_total ds order Hres Hord M {| already := A; tracked := Some [] |}) as [[M1 st1] E1].
+  destruct (phase1_total ds order' Hres Hord' M' {| already := A'; tracked := Some [] |}) as [[M1' st1'] E1'].
+  rewrite E1, E1'. cbn [bind].
+  pose proof (phase1_p1 _ _ _ _ _ _ _ E1) as [-> ->]. pose proof (phase1_p1 _ _ _ _ _ _ _ E1') as [-> ->]. cbn [fst snd].
+  unfold ms_newly, ms_finalize. cbn [already tracked ms_newly].
+  change (fold_left (fun acc x => set_add x acc) (snd (p1 ds A order (M, []))) A) with (add_all (snd (p1 ds A order (M, []))) A).
+  change (fold_left (fun acc x => set_add x acc) (snd (p1 ds A' order' (M', []))) A') with (add_all (snd (p1 ds A' order' (M', []))) A').
+  destruct (pass_same ds order order' M M' A A' Hflat Ho HM HA) as [T [PF PS]].
+  assert (Hnew : incl (snd (p1 ds A order (M, []))) (struct_names ds)).
+  { destruct (p1_tracked ds A order (M, []) (NoDup_nil _) (fun y H0 => False_ind _ H0)) as [_ [_ T3]].
+    intros y Hy. destruct (T3 y Hy) as [[]|H0]. apply Hord. exact H0. }
+  assert (Hnew' : incl (snd (p1 ds A' order' (M', []))) (struct_names ds)).
+  { destruct (p1_tracked ds A' order' (M', []) (NoDup_nil _) (fun y H0 => False_ind _ H0)) as [_ [_ T3]].
+    intros y Hy. destruct (T3 y Hy) as [[]|H0]. apply Hord'. exact H0. }
+  set (st2 := {| already := add_all (snd (p1 ds A order (M, []))) A; tracked := None |}).
+  set (st2' := {| already := add_all (snd (p1 ds A' order' (M', []))) A'; tracked := None |}).
+  pose proof (phase2_reject ds _ Hres Hnew (fst (p1 ds A order (M, []))) st2) as R.
+  pose proof (phase2_reject ds _ Hres Hnew' (fst (p1 ds A' order' (M', []))) st2') as R'.
+  destruct (phase2_total ds _ Hres Hnew (fst (p1 ds A order (M, []))) st2) as [E2|[[M2 s2] E2]];
+    destruct (phase2_total ds _ Hres Hnew' (fst (p1 ds A' order' (M', []))) st2') as [E2'|[[M2' s2'] E2']];
+    rewrite E2, E2'; cbn [bind].
+  - exact I.
+  - exfalso. apply R in E2. destruct E2 as [n [H1 H2]].
+    assert (X : phase2 ds (snd (p1 ds A' order' (M', []))) (fst (p1 ds A' order' (M', []))) st2' = Reject) by (apply R'; exists n; split; [apply T; exact H1 | exact H2]).
+    congruence.
+  - exfalso. apply R' in E2'. destruct E2' as [n [H1 H2]].
+    assert (X : phase2 ds (snd (p1 ds A order (M, []))) (fst (p1 ds A order (M, []))) st2 = Reject) by (apply R; exists n; split; [apply T; exact H1 | exact H2]).
+    congruence.
+  - unfold st2 in E2. unfold st2' in E2'. apply phase2_pure in E2. apply phase2_pure in E2'. destruct E2 as [-> ->]. destruct E2' as [-> ->].
+    cbn [fst snd already]. unfold pass in PF, PS. cbn [fst snd] in PF, PS.
+    destruct (pass_already ds order M A Hord Hn Hi) as [P1 [P2 _]]. destruct (pass_already ds order' M' A' Hord' Hn' Hi') as [P1' [P2' _]].
+    unfold pass in P1, P2, P1', P2'. cbn [snd] in P1, P2, P1', P2'.
+    rewrite (same_set_length A A' Hn Hn' HA). rewrite (same_set_length _ _ P1 P1' PS).
+    unfold pu_exit_cmp, cmp.
+    match goal with |- outcome_equiv (if ?b then _ else _) _ => destruct b end; [exact PF|].
+    apply IH; assumption.
+Qed.
+
+(* the statement used by Props/C18.v *)
+Lemma order_independent_flat ds order order' : flat ds -> resolves ds -> order_ok ds order -> order_ok ds order' ->
+  match extend_models ds order, extend_models ds order' with
+  | Ok (ps, M), Ok (ps', M') => ps = ps' /\ same_set M M'
+  | Reject, Reject => True
+  | _, _ => False
+  end.
+Proof.
+  intros Hflat Hres Ho Ho'. unfold extend_models.
+  assert (Hord : incl order (struct_names ds)) by (intros x Hx; apply Ho; exact Hx).
+  assert (Hord' : incl order' (struct_names ds)) by (intros x Hx; apply Ho'; exact Hx).
+  assert (Hsame : same_set order order') by (intro x; rewrite (Ho x), (Ho' x); tauto).
+  destruct (process_all_total ds ds (proj1 (proj2 Hres)) (initial_marks ds)) as [[ps M0] E1]. rewrite E1. cbn [bind fst snd].
+  pose proof (pu_loop_order ds order order' Hflat Hres Hsame Hord Hord' (S (length (struct_names ds))) M0 M0 [] []
+    (same_set_refl _) (same_set_refl _) (NoDup_nil _) (NoDup_nil _) (fun y H => False_ind _ H) (fun y H => False_ind _ H)) as HE.
+  pose proof (extend_no_crash ds order Hres Hord) as NC. pose proof (extend_no_crash ds order' Hres Hord') as NC'.
+  unfold extend_models in NC, NC'. rewrite E1 in NC, NC'. cbn [bind fst snd] in NC, NC'.
+  unfold propagate_unaligned in *.
+  destruct (pu_loop (S (length (struct_names ds))) ds order M0 {| already := []; tracked := None |}) as [Mf| |c];
+    destruct (pu_loop (S (length (struct_names ds))) ds order' M0 {| already := []; tracked := None |}) as [Mf'| |c'];
+    cbn [bind outcome_equiv] in *; try contradiction; try exact I; try (split; [reflexivity | exact HE]).
+  - exfalso. exact (NC c eq_refl).
+Qed.
+
+(* ================================================================================================================== *)
 (* Part 4: concrete schemas (the parser's and post-processor's output for the CATS text in the comments; dumped by harness/astdump.py) *)
 
 (* enum Kind : uint16 {ALPHA = 1, BETA = 2}
@@ -1522,4 +1723,13 @@ Proof.
     (split; [exact Hexp|]; split;
      [intros a Ha Hname; unfold attrs_list in Ha; in_cases Ha; simpl in Hname; simpl; first [lia | discriminate Hname]
      | eexists; split; [reflexivity|]; intros n Hn; in_cases Hn; split; vm_compute; discriminate])]).
+Qed.
+
+Lemma example_flat : flat example_schema.
+Proof.
+  intros x f g [s [fs [H1 [H2 H3]]]] [s' [gs [H1' [H2' _]]]].
+  rewrite H3 in H1'. inversion H1'; subst s'. clear H1'.
+  apply lookup_In in H1. destruct H1 as [H1 _].
+  simpl in H1. repeat (destruct H1 as [H1|H1]; [try discriminate H1; inversion H1; subst s; clear H1|]); try contradiction;
+    simpl in H2; try discriminate H2; inversion H2; subst f; vm_compute in H3; inversion H3; subst fs; discriminate H2'.
 Qed.
